@@ -1498,7 +1498,8 @@ fn quiescent_invariants(case: &StressCase, api: &Arc<Box<dyn Api>>, sh: &Arc<Sha
         let sk: Vec<u64> = snap.entries.iter().map(|e| e.index).collect();
         let pk: Vec<u64> = snap.costs.iter().map(|(k, _)| *k).collect();
         if sk != pk {
-            return Some(SResult::violation(&["C06"], "store_eq_policy", format!("at quiescence resident keys {:?} != charged keys {:?}", sk, pk)));
+            let props: &[&str] = if sk.iter().any(|k| !pk.contains(k)) { &["C06", "C01"] } else { &["C06"] };
+            return Some(SResult::violation(props, "store_eq_policy", format!("at quiescence resident keys {:?} != charged keys {:?}", sk, pk)));
         }
         if snap.len != sk.len() {
             return Some(SResult::violation(&["C06"], "len_eq_entries", format!("len() {} != resident entries {}", snap.len, sk.len())));
